@@ -58,7 +58,10 @@ func verifC11Gen(t *rapid.T, w *verifC11World) *verifC11Act {
 	if len(w.queue) > 0 {
 		cs = append(cs, choice{16, "drain"})
 	}
-	if len(open) < 5 {
+	switch {
+	case len(open) == 0:
+		cs = append(cs, choice{32, "sub"}) // nothing is watching: a schedule without subscribers decides nothing
+	case len(open) < 5:
 		cs = append(cs, choice{13, "sub"})
 	}
 	if len(open) > 0 {
@@ -117,7 +120,7 @@ func verifC11Gen(t *rapid.T, w *verifC11World) *verifC11Act {
 	case "snap":
 		return &verifC11Act{A: "snap"}
 	case "restore":
-		return &verifC11Act{A: "restore"}
+		return &verifC11Act{A: "restore", N: verifC11Pick(t, "drainfirst", []int{1, 1, 0})}
 	case "sleep":
 		return &verifC11Act{A: "sleep", N: verifC11Pick(t, "sleep", []int{3, 3, 11})}
 	}
@@ -217,7 +220,7 @@ func TestVerifC11Stream(t *testing.T) {
 	rapid.Check(t, func(t *rapid.T) {
 		c := rec.NewCase()
 		rapid.SyncTest(t, func(t *rapid.T) {
-			n := rapid.IntRange(8, maxSteps).Draw(t, "steps")
+			n := rapid.IntRange(12, maxSteps).Draw(t, "steps")
 			verifC11RunCase(t, c, func(w *verifC11World, i int) *verifC11Act {
 				if i >= n {
 					return nil
